@@ -15,7 +15,9 @@ type Hook struct {
 	Trig    string `json:"trig"` // raw trigger expression, e.g. before_CONFIGURE-5
 	Await   string `json:"await,omitempty"`
 	Crit    bool   `json:"crit"`
-	Timeout string `json:"timeout,omitempty"` // task hooks
+	Timeout string `json:"timeout,omitempty"` // task hooks: hook time-out; calls: the declared timeout trait (default 5s)
+	// Await == "" for a call: the workflow does not write an await (sim level: the YAML has no await
+	// line and callRole.UnmarshalYAML supplies the default); the declared await point is the trigger
 }
 
 // Op is one operation on the environment.
@@ -41,6 +43,13 @@ type Op struct {
 	// (NewStartActivityTransition ...) against a stand-in task manager that answers the transition
 	// request with a TasksStateChangedEvent, with an error when Body is "fail"
 	Real bool `json:"real,omitempty"`
+	// PauseMs: the harness waits that long before the operation (time passing between the start of a
+	// call and an await point in a later operation)
+	PauseMs int `json:"pause_ms,omitempty"`
+	// Maint (sim level): before the operation the task-class cache is maintained the way the core
+	// does it on every workflow load, with every entry older than the TTL: another environment is
+	// created and destroyed while taskClassCacheTTL is 1 ns
+	Maint bool `json:"maint,omitempty"`
 }
 
 type Input struct {
@@ -97,7 +106,14 @@ func pushOf(args map[string]string) *Snap {
 		Soeor: g("run_end_time_ms"), Eoeor: g("run_end_completion_time_ms")}
 }
 
+// AwaitObs: the await expression a call role ended up with once the workflow was built / loaded
+type AwaitObs struct {
+	Hook  int    `json:"h"`
+	Await string `json:"await"`
+}
+
 type Obs struct {
+	Awaits  []AwaitObs `json:"awaits,omitempty"`
 	Recs    []Rec   `json:"recs,omitempty"`
 	Ops     []OpObs `json:"ops,omitempty"`
 	Crashed bool    `json:"crashed,omitempty"` // the process running the core died during this case
@@ -111,7 +127,8 @@ type Obs struct {
 
 var reCrit = regexp.MustCompile(`(?:(\d+) )?critical hooks? failed at trigger ([A-Za-z_]+)`)
 var reTok = regexp.MustCompile(`<<h(\d+)@(\d+)>>`)
-var reTask = regexp.MustCompile(`hook task vt(\d+)x`)
+// hook tasks are named vt<id>x at the bare level and <repo>/tasks/c<case>k<id>@<rev> at the sim level
+var reTask = regexp.MustCompile(`hook task (?:vt|\S*/tasks/c\d+k)(\d+)(?:x|@)`)
 
 const bodyErrText = "verif body refused"
 
